@@ -1502,6 +1502,14 @@ func (t *tr) rangeStmt(v *ast.RangeStmt, rest func() string) string {
 		t.fail(v, "range with assignment to existing variables")
 	}
 	x := t.expr(v.X)
+	if x.t != nil && x.t.K == KInt {
+		// `for i := range n` (Go 1.22): i = 0 … n-1; the index plays the role of the element of `GoLib.rangeInt n`
+		if v.Value != nil {
+			t.fail(v, "range over an integer with two variables")
+		}
+		x = val{pre: x.pre, s: "GoLib.rangeInt " + paren(x.s), t: &Type{K: KList, Elem: TInt}}
+		v = &ast.RangeStmt{For: v.For, Key: nil, Value: v.Key, Tok: v.Tok, X: v.X, Body: v.Body}
+	}
 	if x.t == nil || (x.t.K != KBytes && x.t.K != KList) {
 		t.fail(v, "range over a non-slice")
 	}
